@@ -186,11 +186,14 @@ def fwd_tls_stream(ctx, facts, self_ty, state_adt, label):
                       "%s: handshake arm ok=%s, streaming arm ok=%s" % (nm, ok_h, ok_s), f.where())
     ctx.floor(label + "|io-methods", n, 4, "I/O methods of the lazy TLS stream")
     # handshake(): action runs only after the handshake future resolved Ok, or when already streaming
+    hs = facts.unit(hs, expand=True)
     acts = [c for c in hs.calls() if norm(c.decl or c.name).endswith("FnOnce::call_once")]
     ctx.floor(label + "::handshake|action-calls", len(acts), 2, "invocations of the I/O action in handshake()")
+    from core import L_result
+    hpolls = {c.bb for c in hs.calls() if norm(c.decl or c.name).endswith("::poll")}
+    hs_ok = L_result(hs, True, hpolls)
     for c in acts:
-        ok, w = hs.guarded(c.bb, lambda lab: lab.kind == "variant" and (lab.variants == {"Streaming"} or
-                                                                        (lab.variants == {"Ok"} and hs.call_defining(lab.place["l"]) is not None)))
+        ok, w = hs.guarded(c.bb, lambda lab: (lab.kind == "variant" and lab.variants == {"Streaming"}) or hs_ok(lab))
         ctx.check(ok, label + "::handshake|action-after-handshake", "the I/O action runs only in the Streaming state or on the Ok edge of the handshake future",
                   "the I/O action can run before the handshake completed", c.where(), hs.path_desc(w))
     polls = [c for c in hs.calls() if norm(c.decl or c.name).endswith("::poll")]
